@@ -7,6 +7,7 @@ mod atomic;
 mod codec;
 mod deque;
 mod footprint;
+mod nfs;
 mod pipe;
 mod readn;
 mod stream;
@@ -24,6 +25,7 @@ fn main() {
     match args[1].as_str() {
         "deque" => deque::drive_deque(&args[2], &args[3]),
         "codec" => codec::drive_codec(&args[2], &args[3]),
+        "nfs" => nfs::drive_nfs(&args[2], &args[3]),
         "atomic" => atomic::drive_atomic(&args[2], &args[3]),
         "vt" => vt::drive_vt(&args[2], &args[3]),
         "tlv" => tlv::drive_tlv(&args[2], &args[3]),
